@@ -31,7 +31,7 @@ RULE = ('log-likelihood-ratio landscapes of real ZeroSigH0SingleDatasetTCLLHRati
 TRUSTED = [
     'Coq 8.16.1 kernel incl. vm_compute (no native_compute)',
     'axioms printed under the theorems at the real-number instance: ClassicalDedekindReals.sig_not_dec, sig_forall_dec, '
-    'FunctionalExtensionality.functional_extensionality_dep (Coq Reals); the wrapper / status theorems that do not need '
+    'FunctionalExtensionality.functional_extensionality_dep, Classical_Prop.classic (Coq Reals / lra); the wrapper / status theorems that do not need '
     'an order are proved for every number system and are closed under the global context',
     'translator/py2coq.py: reading of the 44 kernels of minimizer.py / parameters.py / llhratio.py (G_minimize.v)',
     'hand model M_Minimize.v of the control flow (loops as structural recursion on max_steps / max_repetitions), '
